@@ -314,3 +314,39 @@ pub fn reachable_from(p: &Program, root: usize) -> Vec<bool> {
     }
     reach
 }
+
+
+/// Depth probe in a process of its own (a stack overflow aborts the process and cannot be caught): a chain of `depth`
+/// multiplications built, differentiated (mode "backward") or only dropped (mode "drop") on a thread with an 8 MiB
+/// stack - the default main-thread stack on Linux. Returns None when held, or (failure kind, detail).
+pub fn deep_chain_probe(depth: usize, mode: &str) -> Result<Option<(String, String)>, String> {
+    if cfg!(miri) {
+        return Err("process spawning is not available under Miri".into());
+    }
+    let exe = std::env::current_exe().map_err(|e| e.to_string())?;
+    let out = std::process::Command::new(exe)
+        .args(["deepchain", &depth.to_string(), "8", mode])
+        .output()
+        .map_err(|e| e.to_string())?;
+    let stdout = String::from_utf8_lossy(&out.stdout).to_string();
+    let stderr = String::from_utf8_lossy(&out.stderr).to_string();
+    if out.status.success() && stdout.contains("OK") {
+        return Ok(None);
+    }
+    let stage = if stdout.contains("WRONG-GRADIENT") {
+        "wrong-gradient"
+    } else if !stdout.contains("built") {
+        "died-while-building"
+    } else if mode == "backward" && !stdout.contains("backward-done") {
+        "died-in-backward"
+    } else if !stdout.contains("dropped") {
+        "died-in-drop"
+    } else {
+        "died-in-probe"
+    };
+    let overflow = stderr.contains("overflowed its stack") || stderr.contains("stack overflow");
+    Ok(Some((
+        format!("{}{}", stage, if overflow { "(stack-overflow)" } else { "" }),
+        format!("chain of {} multiplications on an 8 MiB stack, mode {}: exit status {:?}; stdout {:?}; stderr {:?}", depth, mode, out.status, stdout.trim(), stderr.trim().lines().last().unwrap_or("")),
+    )))
+}
